@@ -28,10 +28,12 @@ type c10Script struct {
 	// in is run on the inbound connection
 	in func(w *world.World, r *world.Remote)
 	// faulty marks scripts in which the remote itself misbehaves (no Cease expected on its connections)
-	faulty  bool
-	writers int  // plugin starts this many writer goroutines in OnEstablished
-	second  bool // add an Established by-stander peer P2
-	burst   int  // number of simultaneous inbound connections (default 1)
+	faulty    bool
+	writers   int  // plugin starts this many writer goroutines in OnEstablished
+	second    bool // add an Established by-stander peer P2
+	burst     int  // number of simultaneous inbound connections (default 1)
+	bigWrites bool // the writer goroutines write 4077-byte bodies, 12 each
+	window    int  // vnet window (back-pressure), 0 = unlimited
 }
 
 func remoteHandshakeStay(w *world.World, r *world.Remote) {
@@ -92,6 +94,14 @@ var c10Scripts = []c10Script{
 	{name: "two-peers", dial: acceptWith(remoteHandshakeStay), second: true},
 	// two inbound connections of the same peer at the same instant (at most one is served; both must be closed at shutdown)
 	{name: "in-burst", passive: true, inbound: true, burst: 2, in: remoteHandshakeStay},
+	// back-pressure: the remote completes the handshake and then never reads again while two plugin
+	// goroutines write 4 KiB UPDATEs (window 17000 bytes): every write path of corebgp ends up blocked
+	{name: "peer-not-reading", writers: 2, bigWrites: true, window: 17000, dial: acceptWith(func(w *world.World, r *world.Remote) {
+		if !reach(r, stEstablished, 65002, 90) {
+			return
+		}
+		w.WaitFlag("never")
+	})},
 	// first session ends by the remote's FIN while plugin goroutines write, then corebgp reconnects
 	{name: "reconnect-writers", writers: 2, dial: func(w *world.World, att int) vnet.DialOutcome {
 		if att > 1 {
@@ -142,6 +152,7 @@ func c10Run(p c10Params, ch vrt.Chooser, trace bool) (*world.World, *vrt.Exec, *
 	o := &c10Obs{}
 	e := vrt.Run(vrt.Config{Horizon: int64(20 * time.Second), Race: true, Trace: trace, Chooser: ch}, func() {
 		w = world.New(libIP)
+		w.NW.Window = sc.window
 		w.NewServer(libIP)
 		pl := &world.Plugin{W: w, Peer: "P1", Marker: true}
 		if sc.writers > 0 {
@@ -149,8 +160,16 @@ func c10Run(p c10Params, ch vrt.Chooser, trace bool) (*world.World, *vrt.Exec, *
 				for i := 0; i < sc.writers; i++ {
 					i := i
 					vrt.GoWorld(fmt.Sprintf("writer%d", i), func() {
-						for n := 0; n < 3; n++ {
-							if err := wr.WriteUpdate([]byte(fmt.Sprintf("W%d-%d", i, n))); err != nil {
+						cnt, body := 3, []byte(nil)
+						if sc.bigWrites {
+							cnt, body = 12, make([]byte, 4077)
+						}
+						for n := 0; n < cnt; n++ {
+							b := []byte(fmt.Sprintf("W%d-%d", i, n))
+							if body != nil {
+								b = append(b, body[len(b):]...)
+							}
+							if err := wr.WriteUpdate(b); err != nil {
 								return
 							}
 						}
